@@ -64,6 +64,7 @@ if ! (cd "$CRATE" && MIRIFLAGS="" cargo +nightly miri run --offline -- 0 0) >"$B
 fi
 
 PER=$(( (TOTAL + JOBS - 1) / JOBS ))
+. "$(cd "$(dirname "$0")" && pwd)/lib.sh"
 run_model() { # stage-name miriflags
   local st="$1" flags="$2" k first n
   for k in $(seq 0 $((JOBS - 1))); do
@@ -71,7 +72,7 @@ run_model() { # stage-name miriflags
     n=$PER
     [ $((first + n)) -gt "$TOTAL" ] && n=$((TOTAL - first))
     [ "$n" -le 0 ] && continue
-    ( cd "$CRATE" && MIRIFLAGS="$flags" cargo +nightly miri run --offline -- "$first" "$n" \
+    ( cd "$CRATE" && MIRIFLAGS="$flags" budget 3000 24000 cargo +nightly miri run --offline -- "$first" "$n" \
         >"$WORK/$st-$k.log" 2>&1; echo $? >"$WORK/$st-$k.rc" ) &
   done
 }
